@@ -136,7 +136,7 @@ Proof.
     as (je' & E2 & (ER' & Hbuf') & (D2 & F2)).
   assert (HGQ : GQ_s o s) by (destruct Hpl as [[t0 ->]|[e0 [ds0 ->]]]; [apply sgen_print_raw|apply sgen_print_print]).
   destruct (HGQ lv fuel jst j sc' n' (j_indent jst) (j_buf jst) (j_auto jst) (j_scope jst) (j_n jst) Hf (gi_nonempty _ _ _ G)
-              Hlv Hwf (shape_refl jst)) as (jst' & E3 & O3 & I3 & B3 & A3 & S3 & N3). { rewrite Hmode. exact Eg. }
+              Hlv Hwf (shape_refl jst)) as (jst' & E3 & O3 & (I3 & B3 & A3 & S3 & N3) & _). { rewrite Hmode. exact Eg. }
   assert (ER2 : env_rel (j_scope jst') (c_ij cf) (sc_lookup (ctx st')) je').
   { rewrite S3. eapply env_rel_ext; [|exact ER']. intro k. symmetry. apply A1. }
   assert (G2 : ginv (j_scope jst') (j_n jst') (j_buf jst')).
@@ -150,7 +150,7 @@ Qed.
 
 (* the generator on a text segment of a translation: the chunks of the append-literal statement *)
 Lemma gres_raw_text t st i bf a sc n : shape st i bf a sc n ->
-  gres (write_raw_text t) st (sprint i (JSAppendLit bf t)) i bf a sc n.
+  gres o (write_raw_text t) st (sprint i (JSAppendLit bf t)) i bf a sc n.
 Proof.
   intro H1. cbn [sprint]. unfold write_raw_text. eapply gres_eq.
   - eapply gres_bind; [ | intros x Hx ]. apply gres_indent; exact H1.
@@ -202,7 +202,7 @@ Proof.
         destruct (js_exec_stmt (c_ij cf) (mode st) denv (fun _ _ => None) (fun _ _ _ => OutOfModel) (j_buf jst) (SRaw t) (j_scope jst) (j_n jst) (sc_lookup (ctx st)) je old t
                     (sc_lookup (ctx st)) (JSAppendLit (j_buf jst) t) (j_scope jst) (j_n jst) (nocallee_js _ _) G ltac:(apply sout_raw) ER Hbuf DR ltac:(reflexivity))
           as (je1 & Ej & (ER1 & Hbuf1) & (Dj1 & _)).
-        destruct (gres_raw_text t jst _ _ _ _ _ (shape_refl jst)) as (jst1 & Eg & Og & I3 & B3 & A3 & S3 & N3).
+        destruct (gres_raw_text t jst _ _ _ _ _ (shape_refl jst)) as (jst1 & Eg & Og & (I3 & B3 & A3 & S3 & N3) & _).
         exists st1, [t], je1, jst1. unfold mbind. rewrite Ew. cbn [concat_b]. rewrite app_nil_r.
         split; [reflexivity|]. split; [exact W1|]. split; [reflexivity|]. split; [exact M1|]. split; [intro k; rewrite C1; reflexivity|].
         split; [exact Ej|]. split; [exact Eg|]. split; [exact Og|]. split; [exact I3|]. split; [exact B3|]. split; [exact S3|]. split; [exact N3|].
@@ -231,7 +231,7 @@ Proof.
           as (je1 & Ej & (ER1 & Hbuf1) & (Dj1 & _)).
         destruct (gres_walk o f (NMsgHtmlTag q t) jst (sprint (j_indent jst) (JSAppendLit (j_buf jst) t))
                     _ _ _ _ _ _ _ _ _ _ eq_refl (shape_refl jst)
-                    (fun st1 H1 => gres_raw_text t st1 _ _ _ _ _ H1)) as (jst1 & Eg & Og & I3 & B3 & A3 & S3 & N3).
+                    (fun st1 H1 => gres_raw_text t st1 _ _ _ _ _ H1)) as (jst1 & Eg & Og & (I3 & B3 & A3 & S3 & N3) & _).
         exists st1, [t], je1, jst1. unfold mbind.
         rewrite (walk_b_is_walk cf plural_index bd (S f) (NMsgHtmlTag q t) eq_refl st), walk_unfold. cbn [walk_node pos_of]. unfold mbind.
         rewrite Ew. cbn [concat_b]. rewrite app_nil_r.
